@@ -59,6 +59,7 @@ class Leaf(Instrumented, Config):
     os: Param[Optional[str]]
     e: Param[Color] = Color.RED
     e2: Param[Optional[Shade]]
+    od: Param[Optional[int]] = 7  # optional with a default that is not None: None is then an explicit value
     m: Meta[int] = 0
     o: Option[str] = "opt"
     p: Meta[Optional[Path]]
@@ -229,6 +230,20 @@ class TaskO(TaskBase):
 
     def task_outputs(self, dep):
         return dep(Artifact(v=self.x))
+
+
+class TaskTM(TaskT):
+    """Engine-B plans only: receives other jobs through ignored (Meta) parameters as well."""
+
+    mt: Meta[Optional[TaskT]]
+    mts: Meta[List[TaskT]] = []
+    ma: Meta[Optional[Artifact]]
+
+
+class TaskOM(TaskO):
+    mt: Meta[Optional[TaskT]]
+    mts: Meta[List[TaskT]] = []
+    ma: Meta[Optional[Artifact]]
 
 
 class Pre(Instrumented, LightweightTask):
